@@ -73,8 +73,63 @@ theorem decimal_defaulting_spec :
     unfold Gen.ArrowExpr.decimalScaleArg
     first | rfl | (simp only []; split <;> first | rfl | omega) | (simp; omega)
 
+/-- `__next__` fetches the next table **in a loop** (`while row is None`): a table without rows is skipped,
+it does not end the stream (with `if row is None` — the code before the first repair — this is false, and
+everything below that speaks about empty tables stops compiling). -/
+theorem next_fetch_loop_spec : Gen.ArrowExpr.fetchLoops = true := by decide
+
 /-- The facts in the form the skeleton lemmas take them. -/
-theorem next_facts : NextFacts := ⟨next_guard_spec, next_bookkeeping_spec⟩
+theorem next_facts : NextFacts := ⟨next_guard_spec, next_bookkeeping_spec, next_fetch_loop_spec⟩
+
+/-- `from_arrow` takes the first table off the stream to read the schema and hands `_RowsIterator` the
+stream **with that table chained back in front** (`itertools.chain([first_table], tables)`): no table is
+lost to the schema peek. -/
+theorem from_arrow_stream_spec (tables : List (Table α)) : streamOf tables = tables := by
+  unfold streamOf
+  first | rfl | simp [Gen.ArrowExpr.streamKeepsFirst]
+
+/-- `from_arrow`'s input dispatch (the two *generated* `isinstance` tuples): a single table, a list, a tuple
+and a generator of tables all reach the row iterator as the stream of the caller's tables, in order — a single
+table as the stream of that one table.  (Dropping `tuple` from either test makes a tuple raise; dropping `list`
+from the second makes every list raise.) -/
+theorem input_dispatch_spec (x : Input α) : inputStream x = some x.tables := by
+  cases x <;> simp [inputStream, Input.shape, Input.tables, Gen.ArrowExpr.acceptedShapes, Gen.ArrowExpr.iteredShapes]
+
+/-- The three glue sites between `frame.arrow(size)` / `frame.pandas(size)` and `to_arrow` pass the size on
+unchanged (`DataFrame.arrow`: `to_arrow(self, size=size)`; `DataFrame.pandas`: `to_pandas(self, size)`;
+`to_pandas`: `dataset.arrow(size)`) — `size or None` at any of them would turn `pandas(0)` into "everything". -/
+theorem size_reaches_to_arrow (size : Option Int) : arrowCall size = size ∧ pandasCall size = size := by
+  unfold pandasCall arrowCall Gen.ArrowExpr.frameArrowArg Gen.ArrowExpr.toPandasArrowArg Gen.ArrowExpr.framePandasArg
+  cases size with
+  | none => exact ⟨rfl, rfl⟩
+  | some k => first | exact ⟨rfl, rfl⟩ | (refine ⟨?_, ?_⟩ <;> simp <;> omega)
+
+/-- `FlatColumn.__init__`'s decimal block keeps a precision (≥ 1) and a scale — **including scale 0** — that
+the column was given (`self.scale or int(0.75 * self.precision)` does not: DECIMAL(p, 0) would become
+DECIMAL(p, ⌊0.75p⌋), in both directions of the typing round trip, because the column `FlatColumn.from_arrow`
+builds passes through the same constructor). -/
+theorem init_defaulting_spec :
+    (∀ p : Nat, 1 ≤ p → Gen.ArrowExpr.initPrecision (some (p : Int)) = some (p : Int)) ∧
+    (∀ s : Nat, ∀ p : Int, Gen.ArrowExpr.initScale (some (s : Int)) p = some (s : Int)) := by
+  refine ⟨?_, ?_⟩
+  · intro p hp
+    unfold Gen.ArrowExpr.initPrecision
+    first | rfl | (simp only []; split <;> first | rfl | omega) | (simp; omega)
+  · intro s p
+    unfold Gen.ArrowExpr.initScale
+    first | rfl | (simp only []; split <;> first | rfl | omega) | (simp; omega)
+
+/-- …so a DECIMAL column built with a precision ≥ 1 and a scale keeps both, and other columns are not touched. -/
+theorem normalise_spec :
+    (∀ p s : Nat, 1 ≤ p → normalise .DECIMAL (some p) (some s) = (some p, some s)) ∧
+    (∀ t p s, t ≠ OrsoTy.DECIMAL → normalise t p s = (p, s)) := by
+  refine ⟨?_, ?_⟩
+  · intro p s hp
+    have h1 := init_defaulting_spec.1 p hp
+    have h2 := init_defaulting_spec.2 s (p : Int)
+    simp only [normalise, if_true, Option.map_some, Int.ofNat_eq_natCast, h1, h2, Int.toNat_natCast]
+  · intro t p s ht
+    simp only [normalise, ht, if_false]
 
 /-- `DataFrame.head(k)` — the glue `to_arrow` limits the frame with — is the first `k` rows.  `head`
 is `slice(headOffset k, headLength k)` over the window arithmetic *generated* from dataframe.py
@@ -135,7 +190,7 @@ theorem iterator_spec (tables : List (Table α)) :
     ∀ k, 0 < k → drain (init tables (some k)) = ((tables.map Table.rows).flatten).take k := by
   have key : ∀ size, size ≠ some 0 → (init tables size).remaining = (tables.map Table.rows).flatten := by
     intro size hs
-    simp only [It.remaining, init, List.nil_append]
+    simp only [It.remaining, init, List.nil_append, from_arrow_stream_spec]
     congr 1
     apply List.map_congr_left
     intro t _
@@ -161,6 +216,13 @@ theorem from_arrow_rows_spec (tables : List (Table α)) (size : Option Nat) (hs 
   | some 0, hs => exact absurd rfl hs
   | some (k + 1), _ => simpa using h3 (k + 1) (Nat.succ_pos k)
 
+/-- **…whatever shape the argument has**: a single table, a list, a tuple or a generator of tables. -/
+theorem from_arrow_any_input (x : Input α) (size : Option Nat) (hs : size ≠ some 0) :
+    fromArrowInput x size = some (expectedRows x.tables size) := by
+  unfold fromArrowInput
+  rw [input_dispatch_spec]
+  exact congrArg some (from_arrow_rows_spec x.tables size hs)
+
 /-- **Regression lemma for the pinned tree** (before `fix: Arrow row iterator skips empty
 tables …`): the old `__next__` loses the rows after an empty table, and everything after an
 empty first table, while the repaired one delivers them. -/
@@ -179,7 +241,7 @@ theorem repair_conservative (tables : List (Table α)) (size : Option Nat) (hs :
   apply drainWith_pinned_eq
   intro t ht
   have : processTable (batchOf size) t = t.rows := processTable_eq_rows _ (batch_positive size hs) t
-  simp only [init] at ht ⊢
+  simp only [init, from_arrow_stream_spec] at ht ⊢
   rw [this]
   exact h t ht
 
@@ -322,6 +384,23 @@ theorem from_arrow_frame_conversions (names : List String) (tables : List (Table
   obtain ⟨r1, r2, _⟩ := to_from_roundtrip names ((tables.map Table.rows).flatten) size hw hrect
   exact ⟨_, h', r2, r1⟩
 
+/-- **Every conversion of the same tables, however far it is read.**  A caller who converts the same
+tables again — with another size, after abandoning an earlier conversion part-way, or while an earlier one is
+still being read — and reads `n` rows gets the first `n` of the Arrow rows cut to that conversion's size:
+what one conversion delivers depends on the tables and its own size only.  (`takeWith next n` is `n` calls of
+`__next__`; `readRows … none` reads to the end.) -/
+theorem partial_read_spec (tables : List (Table α)) (size : Option Nat) (hs : size ≠ some 0) (read : Option Nat) :
+    readRows tables size read =
+      match read with
+      | none => expectedRows tables size
+      | some n => (expectedRows tables size).take n := by
+  cases read with
+  | none => exact from_arrow_rows_spec tables size hs
+  | some n =>
+    simp only [readRows]
+    rw [(takeWith_next next_facts n (init tables size)).1, ← drain_eq_rowsLeft next_facts]
+    exact congrArg (List.take n) (from_arrow_rows_spec tables size hs)
+
 /-- The reading behind `Quiet`, on a concrete frame: `fetchone()` on a frame that is still lazy takes
 the row out of the frame (a later `arrow()` has the other two), on an eager frame it does not; and once
 a lazy frame has been materialised (here by `arrow(1)`) its cursor is the exhausted source. -/
@@ -418,7 +497,8 @@ theorem typemap_roundtrip_partial (c : Col) (h : InScope c) (hopen : ¬ OpenFind
     have hb := typemap_decimal_grid p' (List.mem_range.mpr (by omega)) s' (List.mem_range.mpr (by omega)) hp0
     rw [← forthTy_elem_irrelevant _ (by decide) e] at hb
     obtain ⟨c', h0, h1, _, h3, h4, h5⟩ := roundtripCol_of_backTy name _ e _ _ nullable _ hb
-    exact ⟨c', h0, h1, by simpa [normalise] using h3, by simpa [normalise] using h4, (by intro h; cases h), h5⟩
+    rw [normalise_spec.1 p' s' hp0] at h3 h4
+    exact ⟨c', h0, h1, h3, h4, (by intro h; cases h), h5⟩
   · obtain ⟨rfl, rfl⟩ := hnd htd
     by_cases hta : t = .ARRAY
     · subst hta
@@ -429,15 +509,16 @@ theorem typemap_roundtrip_partial (c : Col) (h : InScope c) (hopen : ¬ OpenFind
         cases el <;> simp_all [goodElems]
       have hb := typemap_array_elements el hgood
       obtain ⟨c', h0, h1, h2, h3, h4, h5⟩ := roundtripCol_of_backTy name _ (some el) _ _ nullable _ hb
-      exact ⟨c', h0, h1, by simpa [normalise] using h3, by simpa [normalise] using h4, fun _ => h2, h5⟩
+      rw [normalise_spec.2 _ _ _ (show OrsoTy.ARRAY ≠ OrsoTy.DECIMAL by decide)] at h3 h4
+      exact ⟨c', h0, h1, h3, h4, fun _ => h2, h5⟩
     · have hgood : t ∈ goodScalars := by
         have h1 : t ≠ .DATE := fun h => hopen (Or.inl h)
         cases t <;> simp_all [goodScalars]
       have hb := typemap_scalars t hgood
       rw [← forthTy_elem_irrelevant _ hta e] at hb
       obtain ⟨c', h0, h1, _, h3, h4, h5⟩ := roundtripCol_of_backTy name _ e _ _ nullable _ hb
-      exact ⟨c', h0, h1, by simpa [normalise, htd] using h3, by simpa [normalise, htd] using h4,
-        fun h => absurd h hta, h5⟩
+      rw [normalise_spec.2 _ _ _ htd] at h3 h4
+      exact ⟨c', h0, h1, h3, h4, fun h => absurd h hta, h5⟩
 
 /-- Non-vacuity (types): in-scope columns of each shape that round-trip. -/
 example :
